@@ -1,5 +1,39 @@
 package main
 
+// Area "schedule" (properties C01, C12): regenerated from the CURRENT source
+//
+//	core/schedule/{once,const,line,step,instance_step}.go   the constructors (generic translator of main.go)
+//	core/schedule/{const,line,step,once}.go                 struct tags `validate:"…"` of ConstConfig, LineConfig, StepConfig,
+//	                                                         OnceConfig -> predicates `<Type>_valid` (what config validation accepts);
+//	                                                         the one-line `New<X>Conf(conf)` wrappers (which field goes to which argument)
+//	core/schedule/{do_at,start_sync}.go                      struct doAtSchedule (+ embedded StartSync) -> record `DoAtSt`;
+//	                                                         NewDoAtSchedule, MarkStarted, Start, Next, Left -> state-passing functions
+//	core/import/import.go                                    register.Limiter(name, schedule.F) calls of Import() -> table `limiters`
+//
+// Reading of Go used by the method translator (trusted, see notes/C01.md):
+//
+//	*doAtSchedule / *StartSync receiver      -> one record value `s : DoAtSt` threaded through the statements
+//	atomic.Int64 / atomic.Bool field         -> ℤ / Bool field; x.Load() reads, x.Inc() adds 1 and yields the new value,
+//	                                            x.Swap(v) stores v and yields the old value
+//	sync.Once field                          -> Bool "done"; once.Do(f) = if done then skip else (done := true; f())
+//	time.Time                                -> ℤ (ns on one clock); t.Add(d) = t + d; time.Now() = parameter `now`
+//	panic(msg)                               -> Except.error msg
+//
+// Anything that does not have one of these shapes is a translation error (gen exits non-zero: a broken obligation).
+
+import (
+	"fmt"
+	"go/ast"
+	"go/token"
+	"go/types"
+	"reflect"
+	"strconv"
+	"strings"
+	"time"
+
+	"golang.org/x/tools/go/packages"
+)
+
 func init() {
 	areas["schedule"] = area{
 		pkgPath:   "github.com/yandex/pandora/core/schedule",
@@ -7,5 +41,755 @@ func init() {
 		namespace: "Pandora.Gen.Schedule",
 		imports:   []string{"Pandora.Go.Real"},
 		funcs:     []string{"NewOnce", "constDoAt", "NewConst", "lineDoAt", "NewLine", "NewStep", "NewInstanceStep"},
+		extra:     scheduleExtra,
 	}
+}
+
+type schTr struct {
+	t   *tr
+	pkg *packages.Package
+	tmp int
+}
+
+func (x *schTr) fail(n ast.Node, format string, a ...any) string {
+	msg := fmt.Sprintf("%s: unsupported (schedule area): %s", x.pkg.Fset.Position(n.Pos()), fmt.Sprintf(format, a...))
+	x.t.errs = append(x.t.errs, msg)
+	return "(UNSUPPORTED)"
+}
+
+func (x *schTr) failf(format string, a ...any) {
+	x.t.errs = append(x.t.errs, "schedule area: "+fmt.Sprintf(format, a...))
+}
+
+func schFindType(p *packages.Package, name string) (*ast.TypeSpec, *ast.StructType) {
+	for _, f := range p.Syntax {
+		for _, d := range f.Decls {
+			gd, ok := d.(*ast.GenDecl)
+			if !ok || gd.Tok != token.TYPE {
+				continue
+			}
+			for _, s := range gd.Specs {
+				ts := s.(*ast.TypeSpec)
+				if ts.Name.Name == name {
+					st, _ := ts.Type.(*ast.StructType)
+					return ts, st
+				}
+			}
+		}
+	}
+	return nil, nil
+}
+
+func schFindMethod(p *packages.Package, recv, name string) *ast.FuncDecl {
+	for _, f := range p.Syntax {
+		for _, d := range f.Decls {
+			fd, ok := d.(*ast.FuncDecl)
+			if !ok || fd.Recv == nil || fd.Name.Name != name || len(fd.Recv.List) != 1 {
+				continue
+			}
+			ty := fd.Recv.List[0].Type
+			if st, ok := ty.(*ast.StarExpr); ok {
+				ty = st.X
+			}
+			if id, ok := ty.(*ast.Ident); ok && id.Name == recv {
+				return fd
+			}
+		}
+	}
+	return nil
+}
+
+func (x *schTr) relFile(n ast.Node) string {
+	pos := x.pkg.Fset.Position(n.Pos())
+	rel := pos.Filename
+	if strings.HasPrefix(rel, repo) {
+		rel = strings.TrimPrefix(strings.TrimPrefix(rel, repo), "/")
+	}
+	return rel
+}
+
+// ---------------------------------------------------------------- struct tags -> validity predicates
+
+type schField struct {
+	name string
+	lean string // ℝ or ℤ
+	tag  string
+}
+
+func (x *schTr) configFields(typeName string) ([]schField, *ast.TypeSpec) {
+	ts, st := schFindType(x.pkg, typeName)
+	if st == nil {
+		x.failf("struct type %s not found", typeName)
+		return nil, nil
+	}
+	var out []schField
+	for _, f := range st.Fields.List {
+		ty := x.pkg.TypesInfo.TypeOf(f.Type)
+		lean := ""
+		switch {
+		case isFloat(ty):
+			lean = "ℝ"
+		case isInt(ty):
+			lean = "ℤ"
+		default:
+			x.fail(f, "field type %s of %s", ty, typeName)
+			continue
+		}
+		tag := ""
+		if f.Tag != nil {
+			raw, err := strconv.Unquote(f.Tag.Value)
+			if err != nil {
+				x.fail(f, "struct tag %s", f.Tag.Value)
+				continue
+			}
+			st := reflect.StructTag(raw)
+			tag = st.Get("validate")
+			if c, ok := st.Lookup("config"); ok {
+				x.fail(f, "config tag %q (the harness addresses fields by their lower-cased names)", c)
+			}
+		}
+		if len(f.Names) == 0 {
+			x.fail(f, "embedded field in %s", typeName)
+			continue
+		}
+		for _, n := range f.Names {
+			out = append(out, schField{n.Name, lean, tag})
+		}
+	}
+	return out, ts
+}
+
+// one rule of a validate tag as a Lean proposition about variable v
+func (x *schTr) rule(at ast.Node, rule string, f schField) string {
+	key, param, _ := strings.Cut(rule, "=")
+	lit := func(p string) (string, bool) {
+		if f.lean == "ℤ" {
+			v, err := strconv.ParseInt(p, 10, 64)
+			if err != nil {
+				return "", false
+			}
+			return fmt.Sprintf("(%d : ℤ)", v), true
+		}
+		// validator.v9 parses the parameter with strconv.ParseFloat; keep it exact as a rational
+		if _, err := strconv.ParseFloat(p, 64); err != nil {
+			return "", false
+		}
+		if i, err := strconv.ParseInt(p, 10, 64); err == nil {
+			return fmt.Sprintf("(%d : ℝ)", i), true
+		}
+		return "", false
+	}
+	dur := func(p string) (string, bool) {
+		d, err := time.ParseDuration(p)
+		if err != nil || f.lean != "ℤ" {
+			return "", false
+		}
+		return fmt.Sprintf("(%d : ℤ)", int64(d)), true
+	}
+	switch key {
+	case "min", "gte":
+		if l, ok := lit(param); ok {
+			return "(" + l + " ≤ " + f.name + ")"
+		}
+	case "max", "lte":
+		if l, ok := lit(param); ok {
+			return "(" + f.name + " ≤ " + l + ")"
+		}
+	case "gt":
+		if l, ok := lit(param); ok {
+			return "(" + l + " < " + f.name + ")"
+		}
+	case "lt":
+		if l, ok := lit(param); ok {
+			return "(" + f.name + " < " + l + ")"
+		}
+	case "min-time":
+		if l, ok := dur(param); ok {
+			return "(" + l + " ≤ " + f.name + ")"
+		}
+	case "max-time":
+		if l, ok := dur(param); ok {
+			return "(" + f.name + " ≤ " + l + ")"
+		}
+	}
+	return x.fail(at, "validate rule %q on field %s", rule, f.name)
+}
+
+func (x *schTr) validPredicate(typeName string) string {
+	fields, ts := x.configFields(typeName)
+	if ts == nil {
+		return ""
+	}
+	var ps, conj, doc []string
+	for _, f := range fields {
+		ps = append(ps, "("+f.name+" : "+f.lean+")")
+		doc = append(doc, f.name+" `"+f.tag+"`")
+		if f.tag == "" {
+			continue
+		}
+		for _, r := range strings.Split(f.tag, ",") {
+			conj = append(conj, x.rule(ts, strings.TrimSpace(r), f))
+		}
+	}
+	body := "True"
+	if len(conj) > 0 {
+		body = strings.Join(conj, " ∧ ")
+	}
+	return fmt.Sprintf("/-- regenerated from the `validate` struct tags of `%s` type `%s`: %s -/\ndef %s_valid %s : Prop :=\n  %s\n\n",
+		x.relFile(ts), typeName, strings.Join(doc, ", "), typeName, strings.Join(ps, " "), body)
+}
+
+// `func NewXConf(conf XConfig) core.Schedule { return NewX(conf.A, conf.B) }`
+func (x *schTr) confWrapper(fn, typeName string) string {
+	fd := findFunc(x.pkg, fn)
+	if fd == nil {
+		x.failf("function %s not found", fn)
+		return ""
+	}
+	fields, _ := x.configFields(typeName)
+	if len(fd.Type.Params.List) != 1 || len(fd.Type.Params.List[0].Names) != 1 {
+		return x.fail(fd, "%s: expected one parameter", fn)
+	}
+	pn := fd.Type.Params.List[0].Names[0].Name
+	if id, ok := fd.Type.Params.List[0].Type.(*ast.Ident); !ok || id.Name != typeName {
+		return x.fail(fd, "%s: parameter type is not %s", fn, typeName)
+	}
+	if len(fd.Body.List) != 1 {
+		return x.fail(fd, "%s: expected a single return statement", fn)
+	}
+	ret, ok := fd.Body.List[0].(*ast.ReturnStmt)
+	if !ok || len(ret.Results) != 1 {
+		return x.fail(fd, "%s: expected a single return statement", fn)
+	}
+	call, ok := ret.Results[0].(*ast.CallExpr)
+	if !ok {
+		return x.fail(fd, "%s: expected return of a constructor call", fn)
+	}
+	callee, ok := call.Fun.(*ast.Ident)
+	if !ok || x.t.known[callee.Name] == "" {
+		return x.fail(fd, "%s: callee is not a translated constructor", fn)
+	}
+	var args []string
+	for _, a := range call.Args {
+		sel, ok := a.(*ast.SelectorExpr)
+		if !ok {
+			return x.fail(a, "%s: argument is not a field of %s", fn, pn)
+		}
+		id, ok := sel.X.(*ast.Ident)
+		if !ok || id.Name != pn {
+			return x.fail(a, "%s: argument is not a field of %s", fn, pn)
+		}
+		args = append(args, sel.Sel.Name)
+	}
+	var ps []string
+	for _, f := range fields {
+		ps = append(ps, "("+f.name+" : "+f.lean+")")
+	}
+	return fmt.Sprintf("/-- regenerated from `%s` func `%s` (the config struct is passed field by field) -/\ndef %s %s : Sched :=\n  (%s %s)\n\n",
+		x.relFile(fd), fn, fn, strings.Join(ps, " "), callee.Name, strings.Join(args, " "))
+}
+
+// ---------------------------------------------------------------- register.Limiter table of core/import
+
+func (x *schTr) limiters() string {
+	ip := load("github.com/yandex/pandora/core/import")
+	fd := findFunc(ip, "Import")
+	if fd == nil {
+		x.failf("core/import: func Import not found")
+		return ""
+	}
+	var rows []string
+	ast.Inspect(fd.Body, func(n ast.Node) bool {
+		call, ok := n.(*ast.CallExpr)
+		if !ok {
+			return true
+		}
+		sel, ok := call.Fun.(*ast.SelectorExpr)
+		if !ok || sel.Sel.Name != "Limiter" {
+			return true
+		}
+		if id, ok := sel.X.(*ast.Ident); !ok || id.Name != "register" {
+			return true
+		}
+		if len(call.Args) < 2 {
+			x.failf("core/import: register.Limiter with %d arguments", len(call.Args))
+			return true
+		}
+		name, ok := cfStringConst(ip, call.Args[0])
+		if !ok {
+			x.failf("core/import: register.Limiter name is not a constant string")
+			return true
+		}
+		fsel, ok := call.Args[1].(*ast.SelectorExpr)
+		if !ok {
+			x.failf("core/import: register.Limiter(%q, …): constructor is not schedule.<Func>", name)
+			return true
+		}
+		if id, ok := fsel.X.(*ast.Ident); !ok || id.Name != "schedule" {
+			x.failf("core/import: register.Limiter(%q, …): constructor is not from package schedule", name)
+			return true
+		}
+		extra := ""
+		if len(call.Args) > 2 {
+			extra = "+defaults"
+		}
+		rows = append(rows, fmt.Sprintf("(%q, %q)", name, fsel.Sel.Name+extra))
+		return true
+	})
+	return "/-- regenerated from `core/import/import.go` func `Import`: every `register.Limiter(name, schedule.F)` in source order -/\n" +
+		"def limiters : List (String × String) :=\n  [" + strings.Join(rows, ", ") + "]\n\n"
+}
+
+// ---------------------------------------------------------------- doAtSchedule as a state machine
+
+type schRecField struct {
+	name, lean, zero, doc string
+}
+
+func (x *schTr) recFieldsOf(typeName string, out *[]schRecField) {
+	ts, st := schFindType(x.pkg, typeName)
+	if st == nil {
+		x.failf("struct type %s not found", typeName)
+		return
+	}
+	for _, f := range st.Fields.List {
+		ty := x.pkg.TypesInfo.TypeOf(f.Type)
+		if len(f.Names) == 0 {
+			// embedded struct of the same package: flattened
+			if n, ok := ty.(*types.Named); ok && n.Obj().Pkg() == x.pkg.Types {
+				x.recFieldsOf(n.Obj().Name(), out)
+				continue
+			}
+			x.fail(f, "embedded field %s", ty)
+			continue
+		}
+		lean, zero := "", ""
+		ts := types.TypeString(ty, nil)
+		switch {
+		case ts == "go.uber.org/atomic.Int64":
+			lean, zero = "ℤ", "0"
+		case ts == "go.uber.org/atomic.Bool":
+			lean, zero = "Bool", "false"
+		case ts == "sync.Once":
+			lean, zero = "Bool", "false"
+		case ts == "time.Time":
+			lean, zero = "ℤ", "0"
+		case isInt(ty):
+			lean, zero = "ℤ", "0"
+		default:
+			if sig, ok := ty.Underlying().(*types.Signature); ok && sig.Params().Len() == 1 && sig.Results().Len() == 1 &&
+				isInt(sig.Params().At(0).Type()) && isInt(sig.Results().At(0).Type()) {
+				lean, zero = "ℤ → ℤ", "fun _ => 0"
+			} else {
+				x.fail(f, "field type %s", ts)
+				continue
+			}
+		}
+		for _, n := range f.Names {
+			*out = append(*out, schRecField{n.Name, lean, zero, typeName + "." + n.Name + " " + ts})
+		}
+	}
+	_ = ts
+}
+
+type schM struct {
+	x      *schTr
+	recv   string            // receiver variable name in Go
+	params map[string]string // Go parameter -> Lean name
+	fields map[string]string // field name -> Lean type
+	usesNow bool
+	unit   bool // method without results
+}
+
+// expression; effects are appended to pre as `let …` lines
+func (m *schM) expr(e ast.Expr, pre *[]string) string {
+	x := m.x
+	info := x.pkg.TypesInfo
+	if tv, ok := info.Types[e]; ok && tv.Value != nil {
+		if s, ok := x.t.constLit(tv, e); ok {
+			return s
+		}
+	}
+	switch v := e.(type) {
+	case *ast.ParenExpr:
+		return m.expr(v.X, pre)
+	case *ast.Ident:
+		if v.Name == "true" || v.Name == "false" {
+			return v.Name
+		}
+		if l, ok := m.params[v.Name]; ok {
+			return l
+		}
+		return x.fail(e, "identifier %s", v.Name)
+	case *ast.SelectorExpr:
+		if id, ok := v.X.(*ast.Ident); ok && id.Name == m.recv {
+			if _, ok := m.fields[v.Sel.Name]; ok {
+				return "s." + v.Sel.Name
+			}
+		}
+		return x.fail(e, "selector %s", nodeString(x.pkg, e))
+	case *ast.BinaryExpr:
+		l := m.expr(v.X, pre)
+		r := m.expr(v.Y, pre)
+		op := map[token.Token]string{token.ADD: "+", token.SUB: "-", token.MUL: "*", token.LSS: "<", token.LEQ: "≤", token.GTR: ">", token.GEQ: "≥", token.EQL: "=", token.NEQ: "≠"}[v.Op]
+		if op == "" || !(isInt(info.TypeOf(v.X)) && isInt(info.TypeOf(v.Y))) {
+			return x.fail(e, "binary %s on %s", v.Op, info.TypeOf(v.X))
+		}
+		return "(" + l + " " + op + " " + r + ")"
+	case *ast.CallExpr:
+		if tv, ok := info.Types[v.Fun]; ok && tv.IsType() {
+			if len(v.Args) == 1 && isInt(tv.Type) && isInt(info.TypeOf(v.Args[0])) {
+				return m.expr(v.Args[0], pre)
+			}
+			return x.fail(e, "conversion %s", nodeString(x.pkg, e))
+		}
+		sel, ok := v.Fun.(*ast.SelectorExpr)
+		if !ok {
+			return x.fail(e, "call %s", nodeString(x.pkg, e))
+		}
+		// time.Now()
+		if id, ok := sel.X.(*ast.Ident); ok {
+			if pn, ok := info.Uses[id].(*types.PkgName); ok {
+				if pn.Imported().Path() == "time" && sel.Sel.Name == "Now" && len(v.Args) == 0 {
+					m.usesNow = true
+					return "now"
+				}
+				return x.fail(e, "call %s.%s", pn.Imported().Path(), sel.Sel.Name)
+			}
+			// s.doAt(i)
+			if id.Name == m.recv {
+				if lt, ok := m.fields[sel.Sel.Name]; ok && lt == "ℤ → ℤ" && len(v.Args) == 1 {
+					return "(s." + sel.Sel.Name + " " + m.expr(v.Args[0], pre) + ")"
+				}
+			}
+		}
+		// s.<field>.<Method>(args)
+		if inner, ok := sel.X.(*ast.SelectorExpr); ok {
+			if id, ok := inner.X.(*ast.Ident); ok && id.Name == m.recv {
+				fld := inner.Sel.Name
+				lt, ok := m.fields[fld]
+				if !ok {
+					return x.fail(e, "unknown field %s", fld)
+				}
+				goT := types.TypeString(info.TypeOf(inner), nil)
+				switch {
+				case (goT == "go.uber.org/atomic.Int64" || goT == "go.uber.org/atomic.Bool") && sel.Sel.Name == "Load" && len(v.Args) == 0:
+					return "s." + fld
+				case goT == "go.uber.org/atomic.Int64" && sel.Sel.Name == "Inc" && len(v.Args) == 0:
+					*pre = append(*pre, "let s : DoAtSt := { s with "+fld+" := s."+fld+" + 1 }")
+					x.tmp++
+					t := fmt.Sprintf("v%d", x.tmp)
+					*pre = append(*pre, "let "+t+" : ℤ := s."+fld)
+					return t
+				case goT == "go.uber.org/atomic.Bool" && sel.Sel.Name == "Swap" && len(v.Args) == 1:
+					a := m.expr(v.Args[0], pre)
+					x.tmp++
+					t := fmt.Sprintf("v%d", x.tmp)
+					*pre = append(*pre, "let "+t+" : Bool := s."+fld)
+					*pre = append(*pre, "let s : DoAtSt := { s with "+fld+" := "+a+" }")
+					return t
+				case goT == "time.Time" && sel.Sel.Name == "Add" && len(v.Args) == 1 && lt == "ℤ":
+					return "(s." + fld + " + " + m.expr(v.Args[0], pre) + ")"
+				}
+				return x.fail(e, "method %s of %s", sel.Sel.Name, goT)
+			}
+		}
+		return x.fail(e, "call %s", nodeString(x.pkg, e))
+	}
+	return x.fail(e, "%T", e)
+}
+
+func schLets(pre []string, ind string) string {
+	var b strings.Builder
+	for _, l := range pre {
+		b.WriteString(ind + l + "\n")
+	}
+	return b.String()
+}
+
+// stmts translates a statement list; `done` is what a fall-through at the end yields (already indented text producer)
+func (m *schM) stmts(list []ast.Stmt, ind string, done func(ind string) string) string {
+	x := m.x
+	info := x.pkg.TypesInfo
+	if len(list) == 0 {
+		return done(ind)
+	}
+	s0, rest := list[0], list[1:]
+	switch v := s0.(type) {
+	case *ast.ReturnStmt:
+		var pre []string
+		var rs []string
+		for _, r := range v.Results {
+			rs = append(rs, m.expr(r, &pre))
+		}
+		val := "()"
+		if len(rs) == 1 {
+			val = rs[0]
+		} else if len(rs) > 1 {
+			val = "(" + strings.Join(rs, ", ") + ")"
+		}
+		if len(rs) == 0 && !m.unit {
+			return ind + x.fail(s0, "bare return in a method with results")
+		}
+		return schLets(pre, ind) + ind + "Except.ok (" + val + ", s)"
+	case *ast.AssignStmt:
+		if len(v.Lhs) != 1 || len(v.Rhs) != 1 {
+			return ind + x.fail(s0, "multi-assign")
+		}
+		var pre []string
+		rhs := m.expr(v.Rhs[0], &pre)
+		switch l := v.Lhs[0].(type) {
+		case *ast.Ident:
+			if v.Tok != token.DEFINE {
+				return ind + x.fail(s0, "assignment to local %s", l.Name)
+			}
+			ty := info.TypeOf(l)
+			if !isInt(ty) {
+				return ind + x.fail(s0, "local %s of type %s", l.Name, ty)
+			}
+			m.params[l.Name] = mangle(l.Name)
+			return schLets(pre, ind) + ind + "let " + mangle(l.Name) + " : ℤ := " + rhs + "\n" + m.stmts(rest, ind, done)
+		case *ast.SelectorExpr:
+			if id, ok := l.X.(*ast.Ident); ok && id.Name == m.recv && v.Tok == token.ASSIGN {
+				if lt, ok := m.fields[l.Sel.Name]; ok && (lt == "ℤ" || lt == "Bool") {
+					goT := types.TypeString(info.TypeOf(l), nil)
+					if strings.HasPrefix(goT, "go.uber.org/atomic.") || goT == "sync.Once" {
+						return ind + x.fail(s0, "plain assignment to %s field", goT)
+					}
+					return schLets(pre, ind) + ind + "let s : DoAtSt := { s with " + l.Sel.Name + " := " + rhs + " }\n" + m.stmts(rest, ind, done)
+				}
+			}
+		}
+		return ind + x.fail(s0, "assignment %s", nodeString(x.pkg, s0))
+	case *ast.IfStmt:
+		if v.Init != nil || v.Else != nil {
+			return ind + x.fail(s0, "if with init/else")
+		}
+		var pre []string
+		c := m.expr(v.Cond, &pre)
+		condTy := info.TypeOf(v.Cond)
+		_ = condTy
+		// condition is either a comparison (Prop, decidable) or a Bool value
+		if _, isCmp := v.Cond.(*ast.BinaryExpr); !isCmp {
+			c = "(" + c + " = true)"
+		}
+		body := v.Body.List
+		terminal := false
+		if len(body) > 0 {
+			switch last := body[len(body)-1].(type) {
+			case *ast.ReturnStmt:
+				terminal = true
+			case *ast.ExprStmt:
+				if call, ok := last.X.(*ast.CallExpr); ok {
+					if id, ok := call.Fun.(*ast.Ident); ok && id.Name == "panic" {
+						terminal = true
+					}
+				}
+			}
+		}
+		if !terminal {
+			return ind + x.fail(s0, "if body that falls through")
+		}
+		saved := map[string]string{}
+		for k, val := range m.params {
+			saved[k] = val
+		}
+		thenS := m.stmts(body, ind+"  ", done)
+		m.params = saved
+		return schLets(pre, ind) + ind + "if " + c + " then\n" + thenS + "\n" + ind + "else\n" + m.stmts(rest, ind+"  ", done)
+	case *ast.ExprStmt:
+		call, ok := v.X.(*ast.CallExpr)
+		if !ok {
+			return ind + x.fail(s0, "expression statement")
+		}
+		// panic("…")
+		if id, ok := call.Fun.(*ast.Ident); ok && id.Name == "panic" && len(call.Args) == 1 {
+			if msg, ok := cfStringConst(x.pkg, call.Args[0]); ok {
+				return ind + fmt.Sprintf("Except.error %q", msg)
+			}
+			return ind + x.fail(s0, "panic with a non-constant message")
+		}
+		sel, ok := call.Fun.(*ast.SelectorExpr)
+		if !ok {
+			return ind + x.fail(s0, "call statement %s", nodeString(x.pkg, s0))
+		}
+		// s.MarkStarted()
+		if id, ok := sel.X.(*ast.Ident); ok && id.Name == m.recv && sel.Sel.Name == "MarkStarted" && len(call.Args) == 0 {
+			return ind + "match StartSync_MarkStarted s with\n" + ind + "| Except.error e => Except.error e\n" + ind + "| Except.ok (_, s) =>\n" + m.stmts(rest, ind+"  ", done)
+		}
+		// s.startOnce.Do(func() { … })
+		if inner, ok := sel.X.(*ast.SelectorExpr); ok && sel.Sel.Name == "Do" && len(call.Args) == 1 {
+			if id, ok := inner.X.(*ast.Ident); ok && id.Name == m.recv {
+				goT := types.TypeString(info.TypeOf(inner), nil)
+				fl, isLit := call.Args[0].(*ast.FuncLit)
+				if goT == "sync.Once" && isLit && len(fl.Type.Params.List) == 0 {
+					fld := inner.Sel.Name
+					bodyS := m.stmts(fl.Body.List, ind+"      ", func(i string) string { return i + "Except.ok ((), s)" })
+					return ind + "match (if (s." + fld + " = true) then (Except.ok ((), s) : Except String (Unit × DoAtSt)) else\n" +
+						ind + "      let s : DoAtSt := { s with " + fld + " := true }\n" + bodyS + ") with\n" +
+						ind + "| Except.error e => Except.error e\n" + ind + "| Except.ok (_, s) =>\n" + m.stmts(rest, ind+"  ", done)
+				}
+			}
+		}
+		return ind + x.fail(s0, "call statement %s", nodeString(x.pkg, s0))
+	}
+	return ind + x.fail(s0, "%T", s0)
+}
+
+func (x *schTr) method(recvType, name, leanName string, fields map[string]string) string {
+	fd := schFindMethod(x.pkg, recvType, name)
+	if fd == nil {
+		x.failf("method (%s).%s not found", recvType, name)
+		return ""
+	}
+	info := x.pkg.TypesInfo
+	m := &schM{x: x, params: map[string]string{}, fields: fields}
+	if len(fd.Recv.List[0].Names) == 1 {
+		m.recv = fd.Recv.List[0].Names[0].Name
+	}
+	var ps []string
+	for _, f := range fd.Type.Params.List {
+		ty := info.TypeOf(f.Type)
+		if !(isInt(ty) || types.TypeString(ty, nil) == "time.Time") {
+			return x.fail(f, "parameter type %s of %s", ty, name)
+		}
+		for _, n := range f.Names {
+			m.params[n.Name] = mangle(n.Name)
+			ps = append(ps, "("+mangle(n.Name)+" : ℤ)")
+		}
+	}
+	ret := "Unit"
+	m.unit = true
+	if fd.Type.Results != nil && len(fd.Type.Results.List) > 0 {
+		m.unit = false
+		var rs []string
+		for _, f := range fd.Type.Results.List {
+			ty := info.TypeOf(f.Type)
+			lt := ""
+			switch {
+			case isInt(ty), types.TypeString(ty, nil) == "time.Time":
+				lt = "ℤ"
+			case isBool(ty):
+				lt = "Bool"
+			default:
+				return x.fail(f, "result type %s of %s", ty, name)
+			}
+			k := len(f.Names)
+			if k == 0 {
+				k = 1
+			}
+			for i := 0; i < k; i++ {
+				rs = append(rs, lt)
+			}
+		}
+		ret = strings.Join(rs, " × ")
+		if len(rs) > 1 {
+			ret = "(" + ret + ")"
+		}
+	}
+	body := m.stmts(fd.Body.List, "  ", func(i string) string {
+		if m.unit {
+			return i + "Except.ok ((), s)"
+		}
+		return i + x.fail(fd, "%s: control reaches the end of a method with results", name)
+	})
+	now := ""
+	if m.usesNow {
+		now = "(now : ℤ) "
+	}
+	return fmt.Sprintf("/-- regenerated from `%s` method `(*%s).%s`%s -/\ndef %s %s(s : DoAtSt) %s: Except String (%s × DoAtSt) :=\n%s\n\n",
+		x.relFile(fd), recvType, name, map[bool]string{true: " (`now` = the value `time.Now()` returns)", false: ""}[m.usesNow],
+		leanName, now, strings.Join(ps, " ")+map[bool]string{true: " ", false: ""}[len(ps) > 0], ret, body)
+}
+
+func (x *schTr) doAt() string {
+	var fs []schRecField
+	x.recFieldsOf("doAtSchedule", &fs)
+	fields := map[string]string{}
+	var b strings.Builder
+	b.WriteString("/-- regenerated from `core/schedule/do_at.go` struct `doAtSchedule` with the embedded `StartSync` flattened -/\nstructure DoAtSt where\n")
+	for _, f := range fs {
+		fields[f.name] = f.lean
+		b.WriteString("  /-- " + f.doc + " -/\n  " + f.name + " : " + f.lean + "\n")
+	}
+	b.WriteString("\n")
+	// NewDoAtSchedule: return &doAtSchedule{k: v, …}
+	fd := findFunc(x.pkg, "NewDoAtSchedule")
+	if fd == nil {
+		x.failf("function NewDoAtSchedule not found")
+		return b.String()
+	}
+	set := map[string]string{}
+	okShape := false
+	if len(fd.Body.List) == 1 {
+		if ret, ok := fd.Body.List[0].(*ast.ReturnStmt); ok && len(ret.Results) == 1 {
+			if u, ok := ret.Results[0].(*ast.UnaryExpr); ok && u.Op == token.AND {
+				if cl, ok := u.X.(*ast.CompositeLit); ok {
+					okShape = true
+					for _, el := range cl.Elts {
+						kv, ok := el.(*ast.KeyValueExpr)
+						if !ok {
+							okShape = false
+							break
+						}
+						k, ok1 := kv.Key.(*ast.Ident)
+						v, ok2 := kv.Value.(*ast.Ident)
+						if !ok1 || !ok2 {
+							okShape = false
+							break
+						}
+						set[k.Name] = mangle(v.Name)
+					}
+				}
+			}
+		}
+	}
+	if !okShape {
+		x.fail(fd, "NewDoAtSchedule: expected `return &doAtSchedule{field: param, …}`")
+		return b.String()
+	}
+	var ps []string
+	for _, f := range fd.Type.Params.List {
+		ty := x.pkg.TypesInfo.TypeOf(f.Type)
+		lt := "ℤ"
+		if _, ok := ty.Underlying().(*types.Signature); ok {
+			lt = "ℤ → ℤ"
+		} else if !isInt(ty) {
+			x.fail(f, "NewDoAtSchedule parameter type %s", ty)
+		}
+		for _, n := range f.Names {
+			ps = append(ps, "("+mangle(n.Name)+" : "+lt+")")
+		}
+	}
+	var inits []string
+	for _, f := range fs {
+		v, ok := set[f.name]
+		if !ok {
+			v = f.zero
+		}
+		inits = append(inits, f.name+" := "+v)
+	}
+	b.WriteString("/-- regenerated from `core/schedule/do_at.go` func `NewDoAtSchedule` (fields not named in the literal have their zero value) -/\n")
+	b.WriteString("def NewDoAtSchedule " + strings.Join(ps, " ") + " : DoAtSt :=\n  { " + strings.Join(inits, ", ") + " }\n\n")
+	b.WriteString(x.method("StartSync", "MarkStarted", "StartSync_MarkStarted", fields))
+	b.WriteString(x.method("doAtSchedule", "Start", "doAtSchedule_Start", fields))
+	b.WriteString(x.method("doAtSchedule", "Next", "doAtSchedule_Next", fields))
+	b.WriteString(x.method("doAtSchedule", "Left", "doAtSchedule_Left", fields))
+	return b.String()
+}
+
+func scheduleExtra(t *tr) string {
+	x := &schTr{t: t, pkg: t.pkg}
+	var b strings.Builder
+	b.WriteString("-- ---------------------------------------------------------------- what config validation accepts\n\n")
+	b.WriteString("noncomputable section\n\n")
+	for _, c := range [][2]string{{"NewConstConf", "ConstConfig"}, {"NewLineConf", "LineConfig"}, {"NewStepConf", "StepConfig"}, {"NewOnceConf", "OnceConfig"}} {
+		b.WriteString(x.validPredicate(c[1]))
+		b.WriteString(x.confWrapper(c[0], c[1]))
+	}
+	b.WriteString("end\n\n")
+	b.WriteString(x.limiters())
+	b.WriteString("-- ---------------------------------------------------------------- doAtSchedule: what a leaf schedule does when it is started and drained\n\n")
+	b.WriteString(x.doAt())
+	return b.String()
 }
